@@ -54,7 +54,7 @@ ASSUMPTIONS = [
     'connection back (the check verifies first that nothing was committed)',
 ]
 
-HANDLES = ['name', 'conn', 'cursor', 'mkcurs']
+HANDLES = ['name', 'conn', 'cursor', 'mkcurs', 'proxy', 'proxy-mkcurs']
 COLSETS = [['a', 'b', 'c'], ['id', 'select', 'c d'], ['x'],
            ['Order', 'b', 'from', 'z']]
 VALUES = [None, 0, 1, -7, 2.5, 'x', 'y z', "q'uote", '', b'\x00\x01', 10 ** 12]
@@ -220,6 +220,10 @@ def _mk_dbo(handle, path, caller):
         return caller
     if handle == 'cursor':
         return caller.cursor()
+    if handle == 'proxy':
+        return _CursorProxy(caller.cursor())
+    if handle == 'proxy-mkcurs':
+        return lambda: _CursorProxy(caller.cursor())
     return lambda: caller.cursor()
 
 
